@@ -424,12 +424,25 @@ pub fn arity(op: &str) -> (usize, usize) {
 
 /// Values the reference calls incompatible with a declared type.
 fn incompatible(t: &Ty) -> Vec<&'static str> {
+    // `op` is a def without parents: a record, but of no class a slot asks for
     match t {
-        Ty::Int | Ty::Bit | Ty::Bits(_) => vec!["\"wrong\"", "[\"wrong\"]", "(op)"],
-        Ty::Str | Ty::Code => vec!["77", "[77]", "(op)"],
-        Ty::List(_) => vec!["77", "\"wrong\"", "(op)"],
-        Ty::Dag => vec!["77", "\"wrong\"", "[77]"],
-        Ty::Class(_) => vec!["77", "\"wrong\"", "[77]", "(op)"],
+        Ty::Int => vec!["\"wrong\"", "[\"wrong\"]", "(op)", "op", "[{ c }]"],
+        Ty::Bit | Ty::Bits(_) => vec!["\"wrong\"", "[\"wrong\"]", "(op)", "op"],
+        Ty::Str | Ty::Code => vec!["77", "[77]", "(op)", "op"],
+        Ty::List(inner) => {
+            let mut v = vec!["77", "\"wrong\"", "(op)", "op"];
+            // a list whose element has the wrong type
+            v.push(match **inner {
+                Ty::Int | Ty::Bit | Ty::Bits(_) => "[\"wrong\"]",
+                Ty::Str | Ty::Code => "[77]",
+                Ty::Class(_) => "[op]",
+                Ty::List(_) => "[77]",
+                Ty::Dag => "[77]",
+            });
+            v
+        }
+        Ty::Dag => vec!["77", "\"wrong\"", "[77]", "op"],
+        Ty::Class(_) => vec!["77", "\"wrong\"", "[77]", "(op)", "op"],
     }
 }
 
